@@ -120,12 +120,13 @@ def cs_internals(text, name):
                     break
                 blk = dict(guard=bm.group(1), body=[])
                 for st in [x.strip() for x in bm.group(2).split(";") if x.strip()]:
-                    m1 = re.match(r"^sm\.Exit<(\w+)>\(\)$", st)
+                    # (the helper ignores its type parameter: `sm.Exit()` is the same step - leaving the current state)
+                    m1 = re.match(r"^sm\.Exit(?:<(\w+)>)?\(\)$", st)
                     m2 = re.match(r"^sm\.Enter<(\w+)>\(\)$", st)
                     m3 = re.match(r"^sm\.estate = E%sState\.(\w+)$" % re.escape(name), st)
                     m4 = re.match(r"^context\.(\w+)\(data\)$", st)
                     if m1:
-                        blk["body"].append(["exit", m1.group(1)])
+                        blk["body"].append(["exit", m1.group(1) or cls["state"]])
                     elif m2:
                         blk["body"].append(["entry", m2.group(1)])
                     elif m3:
